@@ -296,12 +296,10 @@ impl<'d> PreparedFields<'d> {
             }
         }
 
-        // So we don't write a spurious end boundary
-        if text_data.is_empty() && streams.is_empty() {
-            boundary = String::new();
-        } else {
-            boundary.push_str("--");
-        }
+        // The close delimiter is always written, also for a form without any field: `boundary()`
+        // is derived from it, and a body consisting of the close delimiter alone is what a
+        // multipart decoder reads as "no parts".
+        boundary.push_str("--");
 
         content_len += boundary.len() as u64;
 
